@@ -119,7 +119,12 @@ def inherit_clears_unlocked(chk):
         w = EnvWorld(eng, {k: [ord(c) for c in v] for k, v in env.items()})
         eng.world = w
         st.update(w=w, u=u, n=n)
-        return eng.call('Env::inherit', [], None, None)
+        # other obligations of the same check replace Env::inherit by a ready-made Env; here the real body is the subject
+        saved = {k: eng.stubs.pop(k) for k in list(eng.stubs) if k.endswith('::inherit') or k == 'Env::inherit'}
+        try:
+            return eng.call('Env::inherit', [], None, None)
+        finally:
+            eng.stubs.update(saved)
 
     def judge(outcome, val, path):
         w = st['w']
@@ -251,8 +256,56 @@ def ood_omits_stamped(out):
     return 'TOP2=top of v2' in out and not ('mid' in listed and 'top' in listed)
 
 
+# redo-ifcreate called after `cd sub`: the name is the caller's (relative to its cwd), both for the "already exists" test
+# and for the recorded dependency
+IFCREATE_FILES = {
+    't.do': 'cd sub\nredo-ifcreate F\necho built >> ../t.runs\necho t\n',     # sub/F exists: must be refused
+    'u.do': 'cd sub\nredo-ifcreate G\necho built >> ../u.runs\necho u\n',     # sub/G absent (a G next to the script exists)
+    'sub/F': 'exists\n', 'G': 'decoy\n', 'sub/.keep': '',
+}
+IFCREATE_SCRIPT = '''
+redo-ifchange t >log1 2>&1; echo "RCT=$?"
+redo-ifchange u >log2 2>&1; echo "RCU=$?"
+echo "URUNS1=$(wc -l < u.runs 2>/dev/null || echo 0)"
+echo now > sub/G
+redo-ifchange u >log3 2>&1; echo "RCU2=$?"
+echo "URUNS2=$(wc -l < u.runs 2>/dev/null || echo 0)"
+'''
+
+
+def ifcreate_wrong_dir(out):
+    lines = dict(l.split('=', 1) for l in out.split('\n') if '=' in l)
+    lines = {k: v.strip() for k, v in lines.items()}
+    # t must fail (sub/F exists); u must build once, and again exactly when sub/G appears
+    return lines.get('RCT') == '0' or lines.get('RCU') != '0' or lines.get('URUNS1') != '1' or lines.get('URUNS2') != '2'
+
+
+# a redo-always + redo-stamp target that failed once and then builds fine again with the same content: it must be built once per
+# run, not once per dependent
+STAMP_FAIL_FILES = {
+    'all.do': 'redo-ifchange p1 p2\n',
+    'p1.do': 'redo-ifchange a\ncat a\n', 'p2.do': 'redo-ifchange a\ncat a\n',
+    'a.do': 'redo-always\necho ran >> a.runs\n[ -e fail-now ] && exit 1\necho constant > $3\nredo-stamp < $3\n',
+}
+STAMP_FAIL_SCRIPT = '''
+redo-ifchange all >log1 2>&1; echo "RC1=$?"
+: > fail-now
+redo-ifchange all >log2 2>&1; echo "RC2=$?"
+rm -f fail-now
+redo-ifchange all >log3 2>&1; echo "RC3=$?"
+: > a.runs
+redo-ifchange all >log4 2>&1; echo "RC4=$?"
+echo "RUNS4=$(wc -l < a.runs)"
+'''
+
+
+def stamped_target_stays_dirty(out):
+    lines = dict(l.split('=', 1) for l in out.split('\n') if '=' in l)
+    return lines.get('RC4', '').strip() == '0' and lines.get('RUNS4', '').strip() not in ('1',)
+
+
 def ood_changes_db(out):
     return 'DB=changed' in out
 
 
-PREDICATES = {'stale_after_stamp': stale_after_stamp, 'always_more_than_once': always_more_than_once, 'ood_changes_db': ood_changes_db, 'ood_omits_stamped': ood_omits_stamped, 'unlocked_leaks': unlocked_leaks}
+PREDICATES = {'stale_after_stamp': stale_after_stamp, 'always_more_than_once': always_more_than_once, 'ood_changes_db': ood_changes_db, 'ood_omits_stamped': ood_omits_stamped, 'unlocked_leaks': unlocked_leaks, 'ifcreate_wrong_dir': ifcreate_wrong_dir, 'stamped_target_stays_dirty': stamped_target_stays_dirty}
